@@ -478,7 +478,9 @@ impl<'a> SubtypeChecker<'a> {
                     bail!("mismatched memory limits");
                 }
 
-                if apsl != bpsl {
+                // A memory type without an explicit page size has the default
+                // page size of 64KiB (i.e. a `page_size_log2` of 16).
+                if apsl.unwrap_or(16) != bpsl.unwrap_or(16) {
                     bail!("mismatched page_size_log2 for memories");
                 }
 
